@@ -50,7 +50,7 @@ def run(tier, seed):
         rule='all sequences over {4 valid frames} + {45 violating frames, one or more per RFC 6455 violation class} up to the bound, '
              'x 3 read segmentations; plus the sweep over all 65536 two-byte headers; non-trivial = distinct frame sequences in '
              'which the real code reported a protocol error',
-        nontrivial=nontrivial, anchors=anchors, variants=variants, sample_keys=('ev', 'wr'),
+        nontrivial=nontrivial, need_actions=('FeedNext', 'ErrClose', 'ExitNonGraceful'), anchors=anchors, variants=variants, sample_keys=('ev', 'wr'),
         random_scripts=[{'cfgname': 'CfgPlain', 'cfg': PLAIN, 'n': (300, 4000), 'items': 'C04Items', 'faults': set()}],
         extra=lambda run: c04hdr.add(run, tier))
     missing = sorted({'critical', 'noncritical', 'close_frame_after_violation', 'valid_prefix_delivered'} - seen)
